@@ -350,7 +350,50 @@ func normSnap(rig *proc.Rig) string {
 	return string(b)
 }
 
+// beforeAnySet: until the node has learnt a guardian set from the chain nobody is a guardian; whatever
+// arrives - however well signed - must leave no trace in the aggregation state and cause no output.
+func beforeAnySet(rng *rand.Rand, pool []int, serial uint64) {
+	rig, err := proc.New(proc.Options{Key: vlib.Key(proc.NodeKey)})
+	if err != nil {
+		r.InconclusiveCase("rig: " + err.Error())
+		return
+	}
+	defer rig.Close()
+	for i, variant := range []string{"valid", "valid", "nonmember", "wrong-addr", "sig-bitflip"} {
+		m := proc.GenMsg(rng, serial, 40+i)
+		k := pool[rng.Intn(len(pool))]
+		if variant == "nonmember" {
+			k = 210 + rng.Intn(10)
+		}
+		o := proc.MkObs(m, m.Digest, k, variant, rng, vlib.Addr(vlib.Key(211)))
+		before := normSnap(rig)
+		var pv interface{}
+		func() {
+			defer func() { pv = recover() }()
+			rig.P.VerifHandleObservation(rig.Ctx, o)
+		}()
+		after := normSnap(rig)
+		outs := rig.DrainSend()
+		r.Count("messages", 1)
+		r.Distinct("mutation_kinds", "observation/before-any-set/"+variant)
+		w := map[string]interface{}{"kind": "observation/before-any-set/" + variant, "signer_pool_index": k}
+		switch {
+		case pv != nil:
+			w["panic"] = fmt.Sprint(pv)
+			r.Violation("observation:panic:before-any-set:"+variant, w)
+		case before != after:
+			w["before"], w["after"] = before, after
+			r.Violation("observation:unauthenticated-changed-aggregation-state:before-any-set:"+variant, w)
+		case len(outs) > 0:
+			r.Violation("observation:unauthenticated-caused-output:before-any-set:"+variant, w)
+		default:
+			r.Count("rejected_observation", 1)
+		}
+	}
+}
+
 func observations(rng *rand.Rand, pool, pool2 []int, serial uint64) {
+	beforeAnySet(rng, pool, serial)
 	rig, err := proc.New(proc.Options{Key: vlib.Key(proc.NodeKey)})
 	if err != nil {
 		r.InconclusiveCase("rig: " + err.Error())
@@ -404,13 +447,24 @@ func observations(rng *rand.Rand, pool, pool2 []int, serial uint64) {
 			r.Count("rejected_observation", 1)
 		}
 	}
+	freshN := 1
 	run := func(phase string, members []int, outsiders []int) {
-		for _, m := range []*proc.Msg{mObserved, mUnknown} {
+		for _, m0 := range []*proc.Msg{mObserved, mUnknown, nil} {
+			m := m0
 			tag := phase + "/observed"
 			if m == mUnknown {
 				tag = phase + "/unknown-digest"
 			}
+			if m0 == nil {
+				tag = phase + "/never-seen-digest"
+			}
 			for _, variant := range variants {
+				if m0 == nil {
+					// a digest nobody has mentioned before, a new one for every delivery: a dropped observation
+					// must not even leave an empty aggregation entry behind
+					freshN++
+					m = proc.GenMsg(rng, serial, freshN)
+				}
 				k := members[rng.Intn(len(members))]
 				var other ethcommon.Address
 				switch variant {
@@ -425,7 +479,15 @@ func observations(rng *rand.Rand, pool, pool2 []int, serial uint64) {
 				deliver(tag, m, k, variant, other)
 			}
 			for _, k := range outsiders {
+				if m0 == nil {
+					freshN++
+					m = proc.GenMsg(rng, serial, freshN)
+				}
 				deliver(tag+"/member-of-other-set", m, k, "valid", ethcommon.Address{})
+			}
+			if m0 == nil {
+				freshN++
+				m = proc.GenMsg(rng, serial, freshN)
 			}
 			// signatures made for other purposes
 			k := members[0]
